@@ -227,15 +227,29 @@ impl Envelope {
     ) -> Result<bool> {
             let threshold = threshold.unwrap_or(public_keys.len());
             let mut count = 0;
+            // An error while checking one key must not hide the fact that
+            // enough of the other keys have valid signatures.
+            let mut first_error: Option<anyhow::Error> = None;
             for key in public_keys {
-                if self.clone().has_some_signature_from_key(*key)? {
-                    count += 1;
-                    if count >= threshold {
-                        return Ok(true);
+                match self.clone().has_some_signature_from_key(*key) {
+                    Ok(true) => {
+                        count += 1;
+                        if count >= threshold {
+                            return Ok(true);
+                        }
+                    }
+                    Ok(false) => {}
+                    Err(err) => {
+                        if first_error.is_none() {
+                            first_error = Some(err);
+                        }
                     }
                 }
             }
-            Ok(false)
+            match first_error {
+                Some(err) => Err(err),
+                None => Ok(false),
+            }
     }
 
     /// Checks whether the envelope's subject has some threshold of signatures.
@@ -287,7 +301,12 @@ impl Envelope {
         // - `Signature` objects with additional metadata assertions, wrapped
         // and then signed by the same key.
         let signature_objects = self.objects_for_predicate(known_values::SIGNED);
-        let result: Option<Result<Option<Envelope>>> = signature_objects.iter().find_map(|signature_object| {
+        // A valid signature from `key` on any `signed` assertion wins; a
+        // malformed, obscured or foreign signature object elsewhere only turns
+        // into an error if no assertion carries a valid signature from `key`.
+        let mut first_error: Option<anyhow::Error> = None;
+        for signature_object in signature_objects.iter() {
+            let result: Option<Result<Option<Envelope>>> = (|| {
             let signature_object_subject = signature_object.subject();
             if signature_object_subject.is_wrapped() {
                 if
@@ -322,12 +341,21 @@ impl Envelope {
             } else {
                 Some(Err(anyhow::anyhow!("Unexpected signature object type.")))
             }
-        });
+            })();
+            match result {
+                Some(Ok(Some(envelope))) => return Ok(Some(envelope)),
+                Some(Err(err)) => {
+                    if first_error.is_none() {
+                        first_error = Some(err);
+                    }
+                }
+                _ => {}
+            }
+        }
 
-        match result {
-            Some(Ok(Some(envelope))) => Ok(Some(envelope)),
-            Some(Err(err)) => Err(err),
-            _ => Ok(None),
+        match first_error {
+            Some(err) => Err(err),
+            None => Ok(None),
         }
     }
 }
